@@ -142,4 +142,10 @@ def unused_table(run):
                     ln_text = text.split('\n')[line - 1]
                     want = [(code, 'Unused name: %s' % v, line, ln_text.find(v))]
                 one('%s-%s' % (label, 'underscore' if v.startswith('_') else 'plain'), text, want, path)
+        # the dotted-import exemption also when the read reaches the name through several branches
+        one('dotted-import-used-through-branches',
+            'c = 1\nif c:\n    import logging.config\nelse:\n    import logging.handlers\nlogging.foo()\nimport logging.other\n', [], path)
+        one('dotted-import-used-directly', 'import logging.config\nlogging.foo()\nimport logging.other\n', [], path)
+        one('dotted-import-never-used', 'import logging.config\nimport logging.other\n',
+            [('W02', 'Unused import: logging', 1, 7), ('W02', 'Unused import: logging', 2, 7)], path)
     core.explore(lambda: None, lambda p, out: go(p))
